@@ -64,6 +64,7 @@ type ChainParams struct {
 	ChainID         uint16
 	NUsers          int
 	MaxCandidates   int
+	MinDepositLemo  int64
 }
 
 type Deputy struct {
@@ -82,12 +83,13 @@ type Net struct {
 	Users    []*keyInfo
 	GenesisT uint32
 	Nodes    map[int]*Node
+	factories []*Factory
 	genesis  *chain.Genesis
 	GenBlock *types.Block
 }
 
 func defaultParams(c *Ctx) ChainParams {
-	return ChainParams{NDeputies: 3, DeputyCount: 5, SlotMs: 3000, TermDuration: 1000000, InterimDuration: 1000, ChainID: 200, NUsers: 6, MaxCandidates: 20}
+	return ChainParams{NDeputies: 3, DeputyCount: 5, SlotMs: 3000, TermDuration: 1000000, InterimDuration: 1000, ChainID: 200, NUsers: 6, MaxCandidates: 20, MinDepositLemo: 300}
 }
 
 // applyGlobals installs the process-wide protocol parameters for this run.
@@ -95,6 +97,9 @@ func (p ChainParams) applyGlobals() {
 	params.TermDuration = p.TermDuration
 	params.InterimDuration = p.InterimDuration
 	store.VerifSetMaxCandidateCount(p.MaxCandidates)
+	if p.MinDepositLemo > 0 {
+		params.MinCandidateDeposit = new(big.Int).Mul(big.NewInt(p.MinDepositLemo), big.NewInt(1e18))
+	}
 }
 
 func NewNet(c *Ctx, p ChainParams) *Net {
@@ -115,8 +120,36 @@ func NewNet(c *Ctx, p ChainParams) *Net {
 			Host: "127.0.0.1", Port: fmt.Sprintf("%d", 7001+i), Introduction: fmt.Sprintf("deputy %d", i),
 		})
 	}
+	c.Cleanups = append(c.Cleanups, n.Shutdown)
 	n.genesis = &chain.Genesis{Time: n.GenesisT, ExtraData: "verif", GasLimit: params.GenesisGasLimit, Founder: n.Founder.Addr, DeputyNodesInfo: infos}
 	return n
+}
+
+// Shutdown closes every store of the net so that their goroutines exit before the bubble ends.
+func (n *Net) Shutdown() {
+	for _, nd := range n.Nodes {
+		nd := nd
+		if nd.Alive {
+			n.C.W.Do(nd.Tag, nd.Name+".shutdown", func() {
+				if nd.BC != nil {
+					nd.BC.Stop()
+				}
+				if nd.DB != nil {
+					nd.DB.Close()
+				}
+			})
+			nd.Alive = false
+		}
+	}
+	for _, f := range n.factories {
+		f := f
+		n.C.W.Do(f.Tag, "factory.shutdown", func() {
+			if f.DB != nil {
+				f.DB.Close()
+			}
+		})
+	}
+	n.C.W.Sleep(2 * time.Second)
 }
 
 // DeputyByMiner returns the deputy with the given miner address (nil if none).
@@ -316,8 +349,9 @@ func (t *factoryLoader) GetParentByHeight(height uint32, sonBlockHash common.Has
 
 func (n *Net) NewFactory(tag int) *Factory {
 	f := &Factory{Net: n, Tag: tag, Blocks: map[common.Hash]*types.Block{}, Kids: map[common.Hash][]common.Hash{}}
+	n.factories = append(n.factories, f)
 	n.C.W.Do(tag, "factory.start", func() {
-		f.DB = store.NewChainDataBase("/sim/factory/chaindata")
+		f.DB = store.NewChainDataBase(fmt.Sprintf("/sim/factory%d/chaindata", tag))
 		gen := chain.SetupGenesisBlock(f.DB, n.genesis)
 		f.Blocks[gen.Hash()] = gen
 		if n.GenBlock == nil {
@@ -340,7 +374,7 @@ func (n *Net) NewFactory(tag int) *Factory {
 // candidate transactions (invalid ones are discarded as the miner does) and stores it in
 // the factory's own store so that children can be mined on it.
 func (f *Factory) Mine(d int, parent *types.Block, ts uint32, txs types.Transactions, extra string) (blk *types.Block, invalid types.Transactions, err error) {
-	f.Net.C.W.Do(f.Tag+1+d, "factory.mine", func() {
+	task := f.Net.C.W.Do(f.Tag+1+d, "factory.mine", func() {
 		var header *types.Header
 		header, err = f.Asm.PrepareHeader(parent.Header, extra)
 		if err != nil {
@@ -366,6 +400,9 @@ func (f *Factory) Mine(d int, parent *types.Block, ts uint32, txs types.Transact
 			f.DM.SaveSnapshot(blk.Height(), blk.DeputyNodes)
 		}
 	})
+	if !task.Finished {
+		return nil, nil, fmt.Errorf("miner task did not finish (panic: %v)", task.Panic)
+	}
 	if err == nil && blk != nil {
 		f.Blocks[blk.Hash()] = blk
 		f.Kids[parent.Hash()] = append(f.Kids[parent.Hash()], blk.Hash())
